@@ -1,7 +1,8 @@
 (* C13: all scan entry points agree, also across interrupted block iteration.
    Statements only; proofs in Proofs/ResumeProofs.v; model in Model/Resume.v (yr_scanner_scan_mem_blocks as a
    resumable machine over a position-keeping iterator; tied to scanner.c / exec.c / rules.c / filemap.c by
-   checks/c13.py on every run).  The statements hold for every instance of the abstract parts: M / m_scan
+   checks/c13.py on every run).  [discard] selects the code variant: true = the code as it is now (fix 8a2210d),
+   false = the pinned code.  The statements hold for every instance of the abstract parts: M / m_scan
    (what scanning one block adds to the matches) and finish (rule evaluation + report loop). *)
 From Coq Require Import List ZArith NArith.
 From YV Require Import gen.GenConsts Model.Report Spec.ReportSpec Model.Resume Proofs.ResumeProofs.
@@ -13,24 +14,24 @@ Import ListNotations.
    1 + (number of not-ready answers) calls, and leaves the scanner as it was created (no matches, no
    notebook). *)
 Theorem resume_equivalent :
-  forall (M : Type) (m_empty : M) (m_scan : M -> rs_block -> list N -> M) (R : Type) (reads : list N)
+  forall (discard : bool) (M : Type) (m_empty : M) (m_scan : M -> rs_block -> list N -> M) (R : Type) (reads : list N)
          (finish : M -> option N -> list (option N) -> R) (blocks : list rs_block) (fsz : option N) (pat : list bool),
   rs_conforming (length blocks) pat = true ->
   exists r itf itf0,
-    rs_run M m_empty m_scan R reads finish blocks fsz pat =
+    rs_run discard M m_empty m_scan R reads finish blocks fsz pat =
       Some (r, S (count_true pat), rs_init M m_empty, itf) /\
-    rs_run M m_empty m_scan R reads finish blocks fsz [] = Some (r, 1, rs_init M m_empty, itf0).
+    rs_run discard M m_empty m_scan R reads finish blocks fsz [] = Some (r, 1, rs_init M m_empty, itf0).
 Proof. exact resume_equivalent_proof. Qed.
 Print Assumptions resume_equivalent.
 
 (* ... and that result is: every block scanned exactly once, in iterator order (nothing duplicated or lost),
    then the rules evaluated on those matches with the values read back from the blocks *)
 Theorem resume_result_is_each_block_once :
-  forall (M : Type) (m_empty : M) (m_scan : M -> rs_block -> list N -> M) (R : Type) (reads : list N)
+  forall (discard : bool) (M : Type) (m_empty : M) (m_scan : M -> rs_block -> list N -> M) (R : Type) (reads : list N)
          (finish : M -> option N -> list (option N) -> R) (blocks : list rs_block) (fsz : option N) (pat : list bool),
   rs_conforming (length blocks) pat = true ->
   exists itf,
-    rs_run M m_empty m_scan R reads finish blocks fsz pat =
+    rs_run discard M m_empty m_scan R reads finish blocks fsz pat =
       Some (finish (fold_left (rs_scan_block M m_scan) blocks m_empty) fsz (map (pure_read_from blocks) reads),
             S (count_true pat), rs_init M m_empty, itf).
 Proof. exact run_characterised. Qed.
@@ -41,20 +42,20 @@ Print Assumptions resume_result_is_each_block_once.
    Premise: scanning an empty block finds nothing (an empty file is mapped to data = NULL and skipped,
    filemap.c:236-255 / scanner.c:530; an empty memory buffer is scanned). *)
 Theorem entry_points_agree :
-  forall (M : Type) (m_empty : M) (m_scan : M -> rs_block -> list N -> M) (R : Type) (reads : list N)
+  forall (discard : bool) (M : Type) (m_empty : M) (m_scan : M -> rs_block -> list N -> M) (R : Type) (reads : list N)
          (finish : M -> option N -> list (option N) -> R),
   (forall b, m_scan m_empty b [] = m_empty) ->
   forall buf,
-    rs_rules_scan_mem M m_empty m_scan R reads finish buf = Some (entry_result M m_empty m_scan R reads finish buf) /\
-    rs_rules_scan_file M m_empty m_scan R reads finish buf = Some (entry_result M m_empty m_scan R reads finish buf) /\
-    rs_rules_scan_fd M m_empty m_scan R reads finish buf = Some (entry_result M m_empty m_scan R reads finish buf) /\
-    rs_scanner_scan_mem M m_empty m_scan R reads finish (rs_init M m_empty) buf =
+    rs_rules_scan_mem discard M m_empty m_scan R reads finish buf = Some (entry_result M m_empty m_scan R reads finish buf) /\
+    rs_rules_scan_file discard M m_empty m_scan R reads finish buf = Some (entry_result M m_empty m_scan R reads finish buf) /\
+    rs_rules_scan_fd discard M m_empty m_scan R reads finish buf = Some (entry_result M m_empty m_scan R reads finish buf) /\
+    rs_scanner_scan_mem discard M m_empty m_scan R reads finish (rs_init M m_empty) buf =
       Some (entry_result M m_empty m_scan R reads finish buf) /\
-    rs_scanner_scan_file M m_empty m_scan R reads finish (rs_init M m_empty) buf =
+    rs_scanner_scan_file discard M m_empty m_scan R reads finish (rs_init M m_empty) buf =
       Some (entry_result M m_empty m_scan R reads finish buf) /\
-    rs_scanner_scan_fd M m_empty m_scan R reads finish (rs_init M m_empty) buf =
+    rs_scanner_scan_fd discard M m_empty m_scan R reads finish (rs_init M m_empty) buf =
       Some (entry_result M m_empty m_scan R reads finish buf) /\
-    rs_single_block_iter M m_empty m_scan R reads finish (rs_init M m_empty) buf =
+    rs_single_block_iter discard M m_empty m_scan R reads finish (rs_init M m_empty) buf =
       Some (entry_result M m_empty m_scan R reads finish buf).
 Proof. exact entry_points_agree_proof. Qed.
 Print Assumptions entry_points_agree.
@@ -65,16 +66,60 @@ Theorem entry_premise_holds_for_literals :
 Proof. exact rc_scan_empty. Qed.
 Print Assumptions entry_premise_holds_for_literals.
 
-(* FINDING (refutation of "through a scanner object" for scanners that gave up an interrupted scan): the state
-   a call leaves when it returns ERROR_BLOCK_NOT_READY keeps the matches, and nothing but the completion of
-   that same scan ever cleans them.  Witness: rule "#a == 1" ($a = "abc"); blocks "abc","abc", the second not
-   ready; the caller gives up and scans "ab" with the same scanner: the rule matches, with a match at offset 0
-   of a buffer that does not contain "abc".  A fresh scanner says no match. *)
-Theorem scanner_reuse_after_abandoned_scan_refuted :
-  ex_scan_ab (rs_init _ (map (fun _ => []) ex_pats)) = Some ([RNoMatch 0; RFinished], ERROR_SUCCESS, [[]]) /\
-  ex_scan_ab ex_abandoned_state = Some ([RMatch 0; RFinished], ERROR_SUCCESS, [[0%N]]).
-Proof. exact scanner_reuse_after_abandoned_scan_refuted_proof. Qed.
-Print Assumptions scanner_reuse_after_abandoned_scan_refuted.
+(* A scan started (new iterator) on a scanner whose previous scan was given up after ERROR_BLOCK_NOT_READY -
+   the state (m, notebook alive) for ANY leftover matches m; every not-ready return leaves the notebook alive,
+   see not_ready_leaves_notebook - gives, call by call and through every single-buffer entry point, exactly what
+   a newly created scanner gives; neither that scan nor yr_scanner_destroy loses the old notebook.
+   This is the code as fixed by 8a2210d (variant discard = true). *)
+Theorem scan_after_abandoned_equals_fresh :
+  forall (M : Type) (m_empty : M) (m_scan : M -> rs_block -> list N -> M) (R : Type) (reads : list N)
+         (finish : M -> option N -> list (option N) -> R) (blocks : list rs_block) (fsz : option N) (m : M)
+         (it : rs_iter) (fuel : nat) (buf : list N),
+  ri_err it = false ->
+  rs_drive true M m_empty m_scan R reads finish blocks fsz fuel (mk_rs_state M m true) it =
+    rs_drive true M m_empty m_scan R reads finish blocks fsz fuel (rs_init M m_empty) it /\
+  rs_scanner_scan_mem true M m_empty m_scan R reads finish (mk_rs_state M m true) buf =
+    rs_rules_scan_mem true M m_empty m_scan R reads finish buf /\
+  rs_scanner_scan_file true M m_empty m_scan R reads finish (mk_rs_state M m true) buf =
+    rs_rules_scan_file true M m_empty m_scan R reads finish buf /\
+  rs_scanner_scan_fd true M m_empty m_scan R reads finish (mk_rs_state M m true) buf =
+    rs_rules_scan_fd true M m_empty m_scan R reads finish buf /\
+  rs_fresh_leaks true M (mk_rs_state M m true) = false /\
+  rs_destroy_leaks true M (mk_rs_state M m true) = false.
+Proof. exact scan_after_abandoned_equals_fresh_proof. Qed.
+Print Assumptions scan_after_abandoned_equals_fresh.
+
+Theorem not_ready_leaves_notebook :
+  forall (discard : bool) (M : Type) (m_empty : M) (m_scan : M -> rs_block -> list N -> M) (R : Type) (reads : list N)
+         (finish : M -> option N -> list (option N) -> R) (blocks : list rs_block) fsz st it st' it',
+  rs_scan_call discard M m_empty m_scan R reads finish blocks fsz st it = (RsNotReady R, st', it') ->
+  rs_notebook M st' = true.
+Proof. exact not_ready_keeps_notebook. Qed.
+Print Assumptions not_ready_leaves_notebook.
+
+(* the pinned code (variant discard = false, before fix 8a2210d) did not have this property.  Witness: rule
+   "#a == 1" ($a = "abc"); blocks "abc","abc", the second not ready; the caller gives up and scans "ab" with the
+   same scanner: the rule matches with a match at offset 0 of a buffer that does not contain "abc"; the old
+   notebook is overwritten by the next scan and not freed by destroy. *)
+Theorem scanner_reuse_after_abandoned_scan_pinned_refuted :
+  ex_scan_ab false (rs_init _ (map (fun _ => []) ex_pats)) = Some ([RNoMatch 0; RFinished], ERROR_SUCCESS, [[]]) /\
+  ex_scan_ab false (ex_abandoned_state false) = Some ([RMatch 0; RFinished], ERROR_SUCCESS, [[0%N]]) /\
+  rs_fresh_leaks false _ (ex_abandoned_state false) = true /\
+  rs_destroy_leaks false _ (ex_abandoned_state false) = true.
+Proof. exact scanner_reuse_after_abandoned_scan_pinned_refuted_proof. Qed.
+Print Assumptions scanner_reuse_after_abandoned_scan_pinned_refuted.
+
+(* non-vacuity of scan_after_abandoned_equals_fresh: the abandoned call of the witness does return not-ready and
+   leaves a match behind; the current code then answers as a fresh scanner does *)
+Example c13_abandoned_state_exists : forall d,
+  fst (fst (ex_abandoned_call d)) = RsNotReady _ /\ ex_abandoned_state d = mk_rs_state _ [[0%N]] true.
+Proof. exact abandoned_call_returns_not_ready. Qed.
+Example c13_abandoned_current_code :
+  ex_scan_ab true (ex_abandoned_state true) = Some ([RNoMatch 0; RFinished], ERROR_SUCCESS, [[]]) /\
+  ex_scan_ab true (rs_init _ (map (fun _ => []) ex_pats)) = Some ([RNoMatch 0; RFinished], ERROR_SUCCESS, [[]]) /\
+  rs_fresh_leaks true _ (ex_abandoned_state true) = false /\
+  rs_destroy_leaks true _ (ex_abandoned_state true) = false.
+Proof. exact ex_abandoned_current. Qed.
 
 (* non-vacuity: a conforming pattern with three not-ready answers (first() itself, then twice in a row) over
    two blocks: four calls, same result as the uninterrupted scan *)
